@@ -179,6 +179,15 @@ def build_shaper(nt, cfg):
         cleanup = lambda: shutil.rmtree(d, ignore_errors=True)
     else:
         raise ValueError("unknown channel %r" % channel)
+    if mk.get("_class_file") is not None:          # text of a class file -> file_target_classes
+        import shutil
+        import tempfile
+        d2 = tempfile.mkdtemp(prefix="shexer_monitor_")
+        with open(os.path.join(d2, "classes.txt"), "w") as fh:
+            fh.write(mk["_class_file"])
+        kw["file_target_classes"] = os.path.join(d2, "classes.txt")
+        prev = cleanup
+        cleanup = lambda: (prev(), shutil.rmtree(d2, ignore_errors=True))
     try:
         return Shaper(namespaces_dict=ns, **kw), cleanup
     except BaseException:
@@ -640,6 +649,18 @@ def add_duplicate_lines(T, rng, kind, n=1):
         first = out.index(t)
         out.insert(rng.randint(first + 1, len(out)), t)
     return out
+
+
+def tabify(nt):
+    """The same N-Triples document with a TAB (instead of the blank) directly after every whitespace-delimited token:
+    blank-node labels (subject or object), language tags and ^^<datatype> suffixes."""
+    out = []
+    for line in nt.split("\n"):
+        if line.startswith("_:"):
+            line = re.sub(r"^(_:\S+) ", lambda m: m.group(1) + "\t", line)
+        line = re.sub(r"( _:\S+| \"(?:[^\"\\]|\\.)*\"(?:@[A-Za-z0-9\-]+|\^\^<[^>]*>)) \.$", lambda m: m.group(1) + "\t.", line)
+        out.append(line)
+    return "\n".join(out)
 
 
 def add_url_literals(T, rng, n=2):
